@@ -148,7 +148,11 @@ fn main() {
         let _ = h.join();
         return;
     }
-    std::panic::set_hook(Box::new(|_| {}));
+    // remember WHERE the last panic happened (file:line): the witness names it
+    static LAST_PANIC_AT: std::sync::Mutex<String> = std::sync::Mutex::new(String::new());
+    std::panic::set_hook(Box::new(|info| {
+        if let (Ok(mut g), Some(l)) = (LAST_PANIC_AT.lock(), info.location()) { *g = format!("{}:{}", l.file().rsplit("crates/").next().unwrap_or(l.file()), l.line()); }
+    }));
     vf_pipeline::start_watchdog(45);
     let mut cases = 0u64;
     let mut resolved = 0u64;
@@ -199,8 +203,12 @@ fn main() {
                         if let Err(p) = r {
                             let msg = if let Some(s) = p.downcast_ref::<String>() { s.clone() } else if let Some(s) = p.downcast_ref::<&str>() { s.to_string() } else { "panic".to_string() };
                             // sums of asset amounts beyond i128 are the recorded overflow of the asset operators
-                            let class = if msg.contains("overflow") && (desc.contains("170141183460469231731687303715884105727") || desc.contains("-170141183460469231731687303715884105728")) { "amount-overflow" } else { "argument-or-store-shape" };
-                            println!("VERIF-WITNESS obligation=c14_pipeline/resolve_tx#reachable-panic fn=resolve_tx input={desc} class={class} observed=panic:{} required=Ok or Err", msg.chars().take(120).collect::<String>());
+                            let at = LAST_PANIC_AT.lock().map(|g| g.clone()).unwrap_or_default();
+                            // the recorded fee defect: the multiplication / additions of `eval_size_fees` (tx3-cardano/src/ops.rs, lines 5-9)
+                            let in_eval_size_fees = at.starts_with("tx3-cardano/src/ops.rs:") && at.rsplit(':').next().and_then(|l| l.parse::<u32>().ok()).map(|l| (5..=9).contains(&l)).unwrap_or(false);
+                            let class = if msg.contains("overflow") && in_eval_size_fees { "fee-beyond-u64" }
+                                else if msg.contains("overflow") && (desc.contains("170141183460469231731687303715884105727") || desc.contains("-170141183460469231731687303715884105728")) { "amount-overflow" } else { "argument-or-store-shape" };
+                            println!("VERIF-WITNESS obligation=c14_pipeline/resolve_tx#reachable-panic fn=resolve_tx input={desc} class={class} observed=panic at {at}: {} required=Ok or Err", msg.chars().take(120).collect::<String>());
                         }
                     }
                 }
